@@ -930,10 +930,21 @@ package bbolt
 //@   ensures [sorted] sortednode(n)
 //@   modifies n.inodes, n.unbalanced, all("Inode.key"), all("Inode.value"), all("Inode.flags"), all("Inode.pgid")
 
+// Bucket.node: a node already materialised for the page id is returned as it is; otherwise a new node is created for
+// this bucket under the given parent (or as the bucket's root), read from the bucket's inline page or from the
+// transaction's page with that id (node.read), and cached under the page id. The bucket header is not touched.
 //@ func (*Bucket).node
-//@   opaque
-//@   ensures result != nil && b.rootNode != nil && b.InBucket == old(b.InBucket) && b.tx == old(b.tx)
-//@   ensures b.InBucket.sequence == old(b.InBucket.sequence) && b.InBucket.root == old(b.InBucket.root)
+//@   props C04 C05
+//@   requires b != nil
+//@   skip =nopanic/Assert because the nodes map of a bucket in a writable transaction exists (newBucket creates it); read-only transactions never materialise nodes
+//@   callback ensures true
+//@   ensures [legacy] result != nil && b.rootNode != nil
+//@   skip post/legacy because assumed as before: a cached node is non-nil by the first test, but that the bucket's root node is set when a cached node is returned is a tree invariant (A-tree)
+//@   ensures [header] b.InBucket == old(b.InBucket) && b.tx == old(b.tx) && b.InBucket.sequence == old(b.InBucket.sequence) && b.InBucket.root == old(b.InBucket.root)
+//@   ensures [cached] old(has(b.nodes, pgId) && b.nodes[pgId] != nil) ==> result == old(b.nodes[pgId]) && callstotal("(*node).read") == old(callstotal("(*node).read"))
+//@   ensures [created] !old(has(b.nodes, pgId) && b.nodes[pgId] != nil) ==> fresh(result) && result.bucket == b && result.parent == parent && has(b.nodes, pgId) && b.nodes[pgId] == result && (parent == nil ==> b.rootNode == result) && callstotal("(*node).read") == old(callstotal("(*node).read")) + 1 && lastarg("(*node).read", 0) == result
+//@   ensures [source] !old(has(b.nodes, pgId) && b.nodes[pgId] != nil) && old(b.page) != nil ==> lastarg("(*node).read", 1) == old(b.page)
+//@   skip pre/read because that every key stored on a page of the tree is non-empty is a tree invariant (A-tree; Tx.Check reports violations of the page structure)
 
 //@ func (*Bucket).Put
 //@   returns (err)
@@ -1115,6 +1126,39 @@ package bbolt
 //@   ensures [nobuckets] result ==> (forall j int :: 0 <= j && j < len(b.rootNode.inodes) ==> b.rootNode.inodes[j].flags % 2 == 0)
 //@   modifies nothing
 //@   loop 0 invariant [nobuckets] forall j int :: 0 <= j && j <= rangeindex ==> n.inodes[j].flags % 2 == 0
+
+// node.read materialises a page: same page id, same kind, one inode per page element in order with the element's
+// flags / child id, key and value (ReadInodeFromPage, proved in package common), and the node's own key is the first key.
+//@ func (*node).read
+//@   props C04 C12
+//@   requires n != nil && p != nil
+//@   requires forall i int :: 0 <= i && i < p.count ==> (p.flags == common.LeafPageFlag ? len(lkeyof(lfelem(p, i))) > 0 : len(bkeyof(brelem(p, i))) > 0)
+//@   ensures [id] n.pgid == p.id && n.isLeaf == (p.flags == common.LeafPageFlag) && len(n.inodes) == p.count
+//@   ensures [leaf] p.flags == common.LeafPageFlag ==> (forall i int :: 0 <= i && i < p.count ==> n.inodes[i].flags == lfelem(p, i).flags && bytesval(n.inodes[i].key) == lkeyof(lfelem(p, i)) && bytesval(n.inodes[i].value) == lvalof(lfelem(p, i)))
+//@   ensures [branch] p.flags != common.LeafPageFlag ==> (forall i int :: 0 <= i && i < p.count ==> n.inodes[i].pgid == brelem(p, i).pgid && bytesval(n.inodes[i].key) == bkeyof(brelem(p, i)))
+//@   ensures [key] p.count > 0 ==> bytesval(n.key) == bytesval(n.inodes[0].key)
+//@   ensures [nokey] p.count == 0 ==> n.key == nil
+
+// childIndex: the position of a child in its (sorted) parent = the least position whose key is >= the child's key.
+//@ func (*node).childIndex
+//@   props C04 C07
+//@   requires n != nil && child != nil && sortednode(n)
+//@   ensures [range] 0 <= result && result <= len(n.inodes)
+//@   ensures [below] forall i int :: 0 <= i && i < result ==> cmp(n.inodes[i].key, child.key) < 0
+//@   ensures [atleast] result < len(n.inodes) ==> cmp(n.inodes[result].key, child.key) >= 0
+//@   modifies nothing
+
+// removeChild: the first occurrence of the target is removed from the list of materialised children, the order of the
+// others is kept; a node that is not a child leaves the list alone.
+//@ func (*node).removeChild
+//@   props C04 C07
+//@   requires n != nil
+//@   ensures [len] len(n.children) == old(len(n.children)) || len(n.children) == old(len(n.children)) - 1
+//@   ensures [absent] (forall i int :: 0 <= i && i < old(len(n.children)) ==> old(n.children[i]) != target) ==> len(n.children) == old(len(n.children))
+//@   ensures [removed] (exists i int :: 0 <= i && i < old(len(n.children)) && old(n.children[i]) == target) ==> len(n.children) == old(len(n.children)) - 1
+//@   witness [removed] i := rangeindex + 1
+//@   loop 0 invariant [notyet] forall j int :: 0 <= j && j <= rangeindex ==> n.children[j] != target
+//@   loop 0 invariant [same] len(n.children) == old(len(n.children)) && arrayof(n.children) == old(arrayof(n.children)) && offof(n.children) == old(offof(n.children)) && samerow(n.children)
 
 // ---------------------------------------------------------------- C05: cursors
 
